@@ -545,7 +545,8 @@ impl W {
     /// reference-counted and aggregate types: every call copies (clones) from storage that all
     /// threads share
     fn constants_hammer(&mut self, case: &Case, render: bool) -> Outcome {
-        const SRC: &str = "record Conf {\n    name: String,\n    n: u64,\n    tags: List[String],\n}\nconst GREETING: String = \"hello, \";\nconst NAMES: List[String] = [\"a\", \"bb\", \"ccc\"];\nconst CONF: Conf = Conf { name: \"conf\", n: 7, tags: [\"x\", \"y\"] };\nrecord Stats {\n    sum: u64,\n    count: u64,\n    low: u8,\n}\nconst EMPTY: Stats = Stats { sum: 0, count: 0, low: 3 };\nfn m(x: u64) -> u64 {\n    let s = EMPTY;\n    s.sum = s.sum + x;\n    s.count = s.count + 1;\n    s.sum * 1000 + s.count * 10 + EMPTY.count\n}\nfn f(name: String) -> String {\n    GREETING + name\n}\nfn g(i: u64) -> String {\n    match NAMES.get(i) {\n        Some(s) => s,\n        None => \"none\",\n    }\n}\nfn h(x: u64) -> u64 {\n    let c = CONF;\n    let d = c;\n    if d.name == \"conf\" && d.tags == [\"x\", \"y\"] { d.n + x } else { 0 }\n}\nconst BUF: StringBuf = StringBuf.new();\nfn p(c: char) -> u64 {\n    BUF.push_char(c);\n    BUF.as_string().bytes().len()\n}\nfn plen() -> u64 {\n    BUF.as_string().bytes().len()\n}\nconst SA: StringBuf = StringBuf.new();\nconst SB: StringBuf = StringBuf.new();\nfn sb_ab() -> bool {\n    SA == SB\n}\nfn sb_ba() -> bool {\n    SB == SA\n}\nfn sb_probe() -> u64 {\n    SB.as_string().bytes().len() + SA.as_string().bytes().len()\n}\n";
+        const SRC: &str = "record Conf {\n    name: String,\n    n: u64,\n    tags: List[String],\n}\nconst GREETING: String = \"hello, \";\nconst NAMES: List[String] = [\"a\", \"bb\", \"ccc\"];\nconst CONF: Conf = Conf { name: \"conf\", n: 7, tags: [\"x\", \"y\"] };\nrecord Stats {\n    sum: u64,\n    count: u64,\n    low: u8,\n}\nconst EMPTY: Stats = Stats { sum: 0, count: 0, low: 3 };\nfn m(x: u64) -> u64 {\n    let s = EMPTY;\n    s.sum = s.sum + x;\n    s.count = s.count + 1;\n    s.sum * 1000 + s.count * 10 + EMPTY.count\n}\nfn f(name: String) -> String {\n    GREETING + name\n}\nfn g(i: u64) -> String {\n    match NAMES.get(i) {\n        Some(s) => s,\n        None => \"none\",\n    }\n}\nfn h(x: u64) -> u64 {\n    let c = CONF;\n    let d = c;\n    if d.name == \"conf\" && d.tags == [\"x\", \"y\"] { d.n + x } else { 0 }\n}\nconst BUF: StringBuf = StringBuf.new();\nfn p(c: char) -> u64 {\n    BUF.push_char(c);\n    BUF.as_string().bytes().len()\n}\nfn plen() -> u64 {\n    BUF.as_string().bytes().len()\n}\nconst SA: StringBuf = StringBuf.new();\nconst SB: StringBuf = StringBuf.new();\nfn sb_ab() -> bool {\n    SA == SB\n}\nfn sb_ba() -> bool {\n    SB == SA\n}\nfn sb_probe() -> u64 {\n    SB.as_string().bytes().len() + SA.as_string().bytes().len()\n}\nconst TEXT: String = \"a\u{f1}b\u{65e5}c\u{1d11e}defghij\\nsecond line \u{e9}\\nthird\";\nfn ch(i: u64) -> char? {\n    TEXT.chars().get(i)\n}\nfn sl(i: u64, j: u64) -> String? {\n    TEXT.chars().slice(i, j)\n}\nfn ln(i: u64) -> String? {\n    TEXT.lines().get(i)\n}\n";
+        const TEXT: &str = "a\u{f1}b\u{65e5}c\u{1d11e}defghij\nsecond line \u{e9}\nthird";
         let empty: Vec<u8> = Vec::new();
         let ctl = case.get(2).unwrap_or(&empty);
         let mut c = Choices::new(ctl.get(1..).unwrap_or(&[]));
@@ -564,15 +565,45 @@ impl W {
         let sb_ab = pkg.get_function::<fn() -> bool>("sb_ab").expect("sb_ab");
         let sb_ba = pkg.get_function::<fn() -> bool>("sb_ba").expect("sb_ba");
         let sb_probe = pkg.get_function::<fn() -> u64>("sb_probe").expect("sb_probe");
+        let ch = pkg.get_function::<fn(u64) -> Option<char>>("ch").expect("ch");
+        let sl = pkg.get_function::<fn(u64, u64) -> Option<roto::RotoString>>("sl").expect("sl");
+        let ln = pkg.get_function::<fn(u64) -> Option<roto::RotoString>>("ln").expect("ln");
         let barrier = Arc::new(Barrier::new(n_threads));
         let mut hs = Vec::new();
         for t in 0..n_threads {
             let (f, g, h, m, p, barrier) = (f.clone(), g.clone(), h.clone(), m.clone(), p.clone(), barrier.clone());
             let (sb_ab, sb_ba, sb_probe) = (sb_ab.clone(), sb_ba.clone(), sb_probe.clone());
+            let (ch, sl, ln) = (ch.clone(), sl.clone(), ln.clone());
             hs.push(std::thread::spawn(move || -> Result<(), String> {
                 barrier.wait();
                 let (mut own_pushes, mut last_len) = (0u64, 0u64);
+                let n_chars = TEXT.chars().count();
                 for i in 0..calls {
+                    if i % 16 == 7 {
+                        // views of one String constant (one shared payload) indexed by all threads at once, each
+                        // at its own positions
+                        let k = (i / 16 * (t + 1) + t * 5) % (n_chars + 2);
+                        let got = ch.call(k as u64);
+                        let want = TEXT.chars().nth(k);
+                        if got != want {
+                            return Err(format!("thread {t}, call {i}: TEXT.chars().get({k}) returned {got:?}, expected {want:?}"));
+                        }
+                        let j = (k + 1 + t % 3).min(n_chars);
+                        if k <= j {
+                            let got = sl.call(k as u64, j as u64).map(|s| s.to_string());
+                            let want: Option<String> = if j <= n_chars && k <= j { Some(TEXT.chars().skip(k).take(j - k).collect()) } else { None };
+                            if got != want {
+                                return Err(format!("thread {t}, call {i}: TEXT.chars().slice({k}, {j}) returned {got:?}, expected {want:?}"));
+                            }
+                        }
+                        let l = (i / 16 + t) % 4;
+                        let got = ln.call(l as u64).map(|s| s.to_string());
+                        let want = TEXT.lines().nth(l).map(|s| s.to_string());
+                        if got != want {
+                            return Err(format!("thread {t}, call {i}: TEXT.lines().get({l}) returned {got:?}, expected {want:?}"));
+                        }
+                        continue;
+                    }
                     if i % 8 == 5 {
                         // a constant that is shared mutable state (StringBuf): every push of every
                         // thread must arrive, and a thread sees at least its own pushes
@@ -670,7 +701,55 @@ impl W {
     /// (d) many threads compile, call and drop packages of one runtime whose registered closures
     /// and constants hold drop-tracked values: results must be right, nothing may be released
     /// while the runtime is alive and everything exactly once after it was dropped
+    /// Once per worker process (the types below are used nowhere else in the harness): eight threads ask
+    /// for a function at the same moment, each under a Rust type this process has never handed to roto
+    /// before.  Every request names the true signature and must succeed.
+    fn first_use_race() -> Result<(), String> {
+        static DONE: std::sync::atomic::AtomicBool = std::sync::atomic::AtomicBool::new(false);
+        if DONE.swap(true, std::sync::atomic::Ordering::SeqCst) {
+            return Ok(());
+        }
+        const SRC: &str = "fn r0(x: i16???) -> i16??? { x }\nfn r1(x: Result[i16, i16?]) -> Result[i16, i16?] { x }\nfn r2(x: Verdict[i16?, i16]) -> Verdict[i16?, i16] { x }\nfn r3(x: List[i16??]) -> List[i16??] { x }\nfn r4(x: List[List[i16]]?) -> List[List[i16]]? { x }\nfn r5(x: Result[u16??, i16]) -> Result[u16??, i16] { x }\nfn r6(x: Verdict[i16, List[i16]]) -> Verdict[i16, List[i16]] { x }\nfn r7(x: Result[i16, i16]?) -> Result[i16, i16]? { x }\n";
+        let rt = Arc::new(Runtime::new());
+        let barrier = Arc::new(Barrier::new(8));
+        let mut hs = Vec::new();
+        for t in 0..8usize {
+            let (rt, barrier) = (rt.clone(), barrier.clone());
+            hs.push(std::thread::spawn(move || -> Result<(), String> {
+                let mut pkg = host::compile(&rt, SRC)?;
+                barrier.wait();
+                macro_rules! ask {
+                    ($name:literal, $t:ty) => {
+                        pkg.get_function::<fn($t) -> $t>($name).map(|_| ()).map_err(|e| format!("thread {t}: get_function::<fn({0}) -> {0}>({1:?}) was refused although that is the function's signature: {e}", stringify!($t), $name))
+                    };
+                }
+                match t {
+                    0 => ask!("r0", Option<Option<Option<i16>>>),
+                    1 => ask!("r1", Result<i16, Option<i16>>),
+                    2 => ask!("r2", roto::Verdict<Option<i16>, i16>),
+                    3 => ask!("r3", roto::List<Option<Option<i16>>>),
+                    4 => ask!("r4", Option<roto::List<roto::List<i16>>>),
+                    5 => ask!("r5", Result<Option<Option<u16>>, i16>),
+                    6 => ask!("r6", roto::Verdict<i16, roto::List<i16>>),
+                    _ => ask!("r7", Option<Result<i16, i16>>),
+                }
+            }));
+        }
+        let mut res = Ok(());
+        for h in hs {
+            match h.join() {
+                Ok(Ok(())) => {}
+                Ok(Err(e)) => res = Err(e),
+                Err(_) => res = Err("a thread asking for a function panicked".to_string()),
+            }
+        }
+        res
+    }
+
     fn compile_storm(&mut self, case: &Case, render: bool) -> Outcome {
+        if let Err(e) = Self::first_use_race() {
+            return Outcome::fail("refused-true-signature:first-use-on-several-threads", e);
+        }
         use crate::props::c11;
         let empty: Vec<u8> = Vec::new();
         let ctl = case.get(2).unwrap_or(&empty);
